@@ -556,21 +556,30 @@ Proof. vm_compute. repeat split; reflexivity. Qed.
 Print Assumptions C03_fragment_nested_emphasis_instance.
 
 (* an inline link WITH A TITLE (Proofs/TitleLink.v): pre [w](dest "title") post - the destination ended by the space, match_link_title
-   skipping the white space and scanning the title up to the closing double quote, the closing parenthesis after it; the Link holds
-   destination and title; HTML with the title attribute through the renderer's own filler; also an inline element of leaf FOne *)
+   skipping the white space and scanning the title up to its closing delimiter, the closing parenthesis after it; the title written in
+   ANY OF THE THREE WAYS (q = 34: double quotes, 39: single quotes, 40: parentheses; closer q what ends it), free of q and closer q;
+   the Link holds destination, title and the delimiter (so the Markdown renderer writes it back the same way); HTML with the title
+   attribute through the renderer's own filler; also an inline element of leaf FOne *)
 From Mistletoe Require Import Proofs.TitleLink.
-Theorem C03_titled_link_in_sentence : forall types fn pre w dest title post,
-  ref_spans types = true -> tlink_ok pre w dest title post = true ->
-  Inline.tokenize_inner types fn (pre ++ [91%Z] ++ w ++ [93%Z; 40%Z] ++ dest ++ [32%Z; 34%Z] ++ title ++ [34%Z; 41%Z] ++ post) =
-  EmphSentence.raw_if pre ++ [tlink_of w dest title] ++ EmphSentence.raw_if post.
+Theorem C03_titled_link_in_sentence : forall types fn pre w dest q title post,
+  ref_spans types = true -> tlink_ok pre w dest q title post = true ->
+  Inline.tokenize_inner types fn (pre ++ [91%Z] ++ w ++ [93%Z; 40%Z] ++ dest ++ [32%Z; q] ++ title ++ [closer q; 41%Z] ++ post) =
+  EmphSentence.raw_if pre ++ [tlink_of w dest q title] ++ EmphSentence.raw_if post.
 Proof. exact titled_link_in_sentence. Qed.
 Print Assumptions C03_titled_link_in_sentence.
 
 Theorem C03_titled_link_instance :
-  (tlink_ok ($"see ") ($"the site") ($"http://ex.am/a?b=c") ($"Its title, here") ($", ok") = true) /\
-  (tlink_ok [] ($"x") ($"/y") ([34%Z]) [] = false) /\ (tlink_ok [] ($"x") ($"/y") ($"a&b") [] = false) /\
-  (let t := FQuote [FOne 115 $"ee " (ILinkT $"the site" $"/s" $"Its title") $"."] in
-   wf_b t = true /\ text_of (spell t) = [ $"> see [the site](/s " ++ [34%Z] ++ $"Its title" ++ [34%Z] ++ $")." ++ [10%Z] ]).
+  (tlink_ok ($"see ") ($"the site") ($"http://ex.am/a?b=c") 34 ($"Its title, here") ($", ok") = true) /\
+  (tlink_ok ($"see ") ($"the site") ($"/s") 39 ($"Its ""title"", (here)") [] = true) /\
+  (tlink_ok [] ($"x") ($"/y") 40 ($"it's ""so""") ($".") = true) /\
+  (tlink_ok [] ($"x") ($"/y") 34 ([34%Z]) [] = false) /\ (tlink_ok [] ($"x") ($"/y") 34 ($"a&b") [] = false) /\
+  (tlink_ok [] ($"x") ($"/y") 40 ($"a(b") [] = false) /\ (tlink_ok [] ($"x") ($"/y") 40 ($"a)b") [] = false) /\
+  (tlink_ok [] ($"x") ($"/y") 39 ($"it's") [] = false) /\ (tlink_ok [] ($"x") ($"/y") 60 ($"a") [] = false) /\
+  (let t := FQuote [FOne 115 $"ee " (ILinkT $"the site" $"/s" 34 $"Its title") $"."; FOne 115 $"ee " (ILinkT $"the site" $"/s" 40 $"Its 'title'") $"."] in
+   wf_b t = true /\
+   text_of (spell t) = [ $"> see [the site](/s " ++ [34%Z] ++ $"Its title" ++ [34%Z] ++ $")." ++ [10%Z]; $"> " ++ [10%Z]; $"> see [the site](/s (Its 'title'))." ++ [10%Z] ] /\
+   html_f (mkHopts false false) true (FOne 115 $"ee " (ILinkT $"the site" $"/s" 40 $"Its 'title'") $".") =
+     $"see <a href=" ++ [34%Z] ++ $"/s" ++ [34%Z] ++ $" title=" ++ [34%Z] ++ $"Its &#x27;title&#x27;" ++ [34%Z] ++ $">the site</a>.").
 Proof. vm_compute. repeat split; reflexivity. Qed.
 Print Assumptions C03_titled_link_instance.
 
